@@ -7,6 +7,7 @@ stresses the property's mechanism, and (3) the property's direct oracles on the 
 from __future__ import annotations
 
 import copy
+import os
 import random
 import re
 
@@ -15,7 +16,7 @@ from . import enginegen as G
 from . import enginerun as R
 from .pymini import Unsupported
 
-MARK = re.compile(r"\[(Start|P\d+|J\d+)\]")
+MARK = re.compile(r"\[(Start|P\d+[a-z]*|J\d+)\]")
 HOOKMARK = re.compile(r"\[(H\d+) ran")
 
 
@@ -604,6 +605,53 @@ def alias_phase(chk, rng, n):
     return stats
 
 
+def deepcopy_phase(chk, rng, n):
+    """The snapshot copier of the engine (_copy_state: copy.deepcopy of the whole state with ONE memo, import bindings
+    kept by reference) against Codec/DeepCopy.v, for which Props/C04.v proves: only new cells, same value, sharing
+    preserved exactly (an injective renaming).  Random states whose containers are shared between and inside
+    variables; the real copy is printed as a cell-identified term and compared INSIDE Coq with `snapshot k s`
+    (dcase_bad), and the three proved properties are evaluated on the real copy directly (dcase_props_bad) - the
+    latter is the failing-input search: a flagged case is a concrete state on which a restore point does not keep
+    the sharing structure / value / independence."""
+    from . import deepcopy_tie as D
+    cs = D.repo_copy_state()
+    stats = {"cases": 0, "with_sharing_between_variables": 0, "with_plain_objects": 0, "unsupported": 0}
+    for shard in range(0, n, 150):
+        m = min(150, n - shard)
+        r = random.Random(rng.randrange(10 ** 9))
+        states, terms = [], []
+        for i in range(m):
+            st = D.gen_state(r, bindings=(i % 2 == 1))
+            try:
+                terms.append(D.case_term(st, cs))
+            except D.Unsupported:
+                stats["unsupported"] += 1
+                continue
+            states.append(st)
+            stats["cases"] += 1
+            stats["with_sharing_between_variables"] += bool(D.shares_between_variables(st))
+            stats["with_plain_objects"] += any(D.is_plain_object(o) for o in D._walk(st))
+            chk.count(("deepcopy", repr(terms[-1])), D.shares_anything(st))
+        sdir = os.path.join(chk.scratch, f"deepcopy_{shard}")
+        os.makedirs(sdir, exist_ok=True)
+        try:
+            bad, shown, log = D.run_cases(terms, scratch=sdir)
+        except RuntimeError as ex:
+            chk.disagree("deepcopy-coqc", "the deepcopy cases failed to evaluate", {"log": str(ex)[-1500:]})
+            continue
+        for i in bad.get("dcase_props_bad", []):
+            chk.report("restore-point-lost-sharing",
+                       "the engine's snapshot copier returned a copy that shares a cell with the game, denotes another value, "
+                       "or has another sharing pattern than the state it copied",
+                       {"state_term": terms[i][:3000], "model_vs_real": shown.get(i)})
+        for i in bad.get("dcase_bad", []):
+            if i not in bad.get("dcase_props_bad", []):
+                chk.disagree("snapshot-copier-vs-DeepCopy-model",
+                             "the engine's _copy_state and Codec/DeepCopy.v (snapshot k s) differ on a state",
+                             {"state_term": terms[i][:3000], "model_vs_real": shown.get(i)})
+    return stats
+
+
 CALL_SITE_KINDS = ["choice", "jump", "choice-in-if", "jump-in-if", "choice-in-for", "jump-in-for"]
 
 
@@ -965,6 +1013,7 @@ def run_engine_property(pid: str, tier: str, seed: int, design_note: str) -> int
         stats["call_shapes"] = call_shape_phase(chk, rng, 150 if tier == "quick" else 1500)
     if pid == "C04":
         stats["shared_objects"] = alias_phase(chk, rng, 60 if tier == "quick" else 600)
+        stats["deepcopy_model"] = deepcopy_phase(chk, rng, 150 if tier == "quick" else 1500)
 
     long_histories = 0
     for i in range(n_cases):
